@@ -1034,6 +1034,110 @@ fn client_scenario(outp: &str) {
     std::fs::write(outp, serde_json::to_string(&result).unwrap()).unwrap();
 }
 
+// ------------------------------------------------------------------------------------------
+// refresher: the real RefreshTokenSource (reqwest-connect-rpc/src/token_source/refresh.rs) in real time,
+// with a scripted TokenRefresher; timestamped events for Trace_TokenRefresh.tla
+// ------------------------------------------------------------------------------------------
+
+fn refresher_scenario(evp: &str) {
+    use reqwest_connect_rpc::token_source::{
+        TokenSource, TokenSourceError,
+        refresh::{RefreshTokenSource, TokenWithExpiry},
+    };
+    // all decisions of the loop are >= 5 s away from their boundaries (see the script below)
+    const THR: u64 = 14_000;
+    const MINLIFE: u64 = 6_000;
+    const RETRY: u64 = 13_000;
+    // script per call: (latency ms, Some(lifetime ms) | None = error)
+    //  1: ok 30 s          -> published; next call at exp-14 s = 16 s
+    //  2: ok 30 s, 1 s lat -> published (old token still valid for 13 s); next call 14 s before its expiry
+    //  3: error            -> 14 s left > MINLIFE: the token is kept; retry 13 s later
+    //  4: error            -> 1 s left <= MINLIFE: the error is published, token dropped; retry 13 s later
+    //  5: ok 1 s           -> too close to expiry: ignored; retry 13 s later
+    //  6: ok 30 s          -> published
+    let script: Vec<(u64, Option<u64>)> = vec![(0, Some(30_000)), (1_000, Some(30_000)), (0, None), (0, None), (0, Some(1_000)), (0, Some(30_000))];
+    let rt = tokio::runtime::Builder::new_multi_thread().worker_threads(2).enable_all().build().expect("runtime");
+    rt.block_on(async move {
+        let t0 = Instant::now();
+        let events: Arc<Mutex<Vec<Value>>> = Arc::new(Mutex::new(vec![json!({"ev": "meta", "spec": "TokenRefresh", "thr": THR, "minlife": MINLIFE, "retry": RETRY})]));
+        let ms = move |t: Instant| t.duration_since(t0).as_millis() as u64;
+        let calls = Arc::new(AtomicU64::new(0));
+        let (ev2, calls2, script2) = (events.clone(), calls.clone(), script.clone());
+        let refresher = move || {
+            let (events, calls, script) = (ev2.clone(), calls2.clone(), script2.clone());
+            async move {
+                let n = calls.fetch_add(1, Ordering::SeqCst) as usize;
+                events.lock().unwrap().push(json!({"ev": "start", "t": ms(Instant::now()), "n": n + 1}));
+                let (lat, life) = script.get(n).cloned().unwrap_or((0, Some(600_000)));
+                if lat > 0 {
+                    tokio::time::sleep(Duration::from_millis(lat)).await;
+                }
+                let now = Instant::now();
+                match life {
+                    Some(l) => {
+                        let exp = now + Duration::from_millis(l);
+                        events.lock().unwrap().push(json!({"ev": "end", "t": ms(now), "n": n + 1, "ok": true, "exp": ms(exp)}));
+                        Ok(TokenWithExpiry { token: format!("token-{}-exp-{}", n + 1, ms(exp)), expires_at: exp })
+                    }
+                    None => {
+                        events.lock().unwrap().push(json!({"ev": "end", "t": ms(now), "n": n + 1, "ok": false, "exp": 0}));
+                        let e: TokenSourceError = "scripted refresh failure".into();
+                        Err(e)
+                    }
+                }
+            }
+        };
+        let src = RefreshTokenSource::builder("verif", refresher)
+            .refresh_threshold(Duration::from_millis(THR))
+            .min_token_lifetime(Duration::from_millis(MINLIFE))
+            .refresh_retry_delay(Duration::from_millis(RETRY))
+            .build();
+        // watcher: every published value
+        let mut watch = src.watch();
+        let evw = events.clone();
+        let watcher = tokio::spawn(async move {
+            loop {
+                if watch.changed().await.is_err() {
+                    break;
+                }
+                let v = watch.borrow_and_update().clone_for_log();
+                evw.lock().unwrap().push(json!({"ev": "pub", "t": ms(Instant::now()), "ok": v.0, "exp": v.1}));
+            }
+        });
+        // run until the script is through (bounded)
+        let deadline = Instant::now() + Duration::from_secs(110);
+        while Instant::now() < deadline && calls.load(Ordering::SeqCst) < script.len() as u64 {
+            tokio::time::sleep(Duration::from_millis(200)).await;
+        }
+        tokio::time::sleep(Duration::from_millis(1500)).await;
+        drop(src);
+        watcher.abort();
+        let evs = events.lock().unwrap().clone();
+        let mut w = NdjsonWriter::create(evp);
+        // the event list is appended from two tasks: order by time (stable), meta first
+        let mut rest: Vec<Value> = evs[1..].to_vec();
+        rest.sort_by_key(|e| e["t"].as_u64().unwrap_or(0));
+        w.write(&evs[0]);
+        for e in rest {
+            w.write(&e);
+        }
+        w.finish();
+    });
+}
+
+trait CloneForLog {
+    fn clone_for_log(&self) -> (bool, u64);
+}
+impl CloneForLog for Option<Result<String, reqwest_connect_rpc::token_source::TokenSourceError>> {
+    /// (is a token, expiry in ms encoded in the scripted token string)
+    fn clone_for_log(&self) -> (bool, u64) {
+        match self {
+            Some(Ok(t)) => (true, t.rsplit('-').next().and_then(|x| x.parse().ok()).unwrap_or(0)),
+            _ => (false, 0),
+        }
+    }
+}
+
 fn main() {
     let a: Vec<String> = std::env::args().collect();
     if std::env::var("VERIF_LOUD").is_err() {
@@ -1044,6 +1148,7 @@ fn main() {
         Some("record") if a.len() == 4 => record(&a[2], &a[3]),
         Some("gateway") if a.len() == 3 => gateway(&a[2]),
         Some("client") if a.len() == 3 => client_scenario(&a[2]),
+        Some("refresher") if a.len() == 3 => refresher_scenario(&a[2]),
         _ => {
             eprintln!("usage: snaptunnel replay <hist.ndjson> <out.ndjson> | record <events.ndjson> <summary.json> | gateway <out.json>");
             std::process::exit(2);
